@@ -17,6 +17,8 @@ Tables (input flags -> output):
   critRows  (kind, r)             -> attribute among the optimistic columns  [_construct_optimistic_criteria_]
                                      kind 0 int, 1 float, 2 float optimistic=True, 3 int optimistic=False
   exemptRows (sessOpt, forUpdate) -> the UPDATE carries the criterion of a read attribute   [_save_updated_]
+  sessRows  (sessOpt, forUpdate, wrote+flushed) -> (immediate, in_transaction, in for_update, len(query_results)) before / after commit()
+                                     [SessionCache.__init__, prepare_connection_for_query_execution, flush, commit]
   markRowsT (w, vol, rOther)      -> (rbit of a, rbit of another attribute) after `_set_rbits((obj,), {a})`   [EntityMeta._set_rbits]
 The introspection runs in a subprocess with PYTHONPATH=<repo>.
 """
@@ -42,7 +44,7 @@ def introspect():
     with db_session:
         db.execute("insert into P (id, z, p, q, fl, fo, io) values (1, 1, 3, 3, 1.5, 1.5, 3)")
         db.execute("insert into P (id, z, p, q, fl, fo, io) values (2, 1, NULL, NULL, 1.5, 1.5, 3)")
-    out = {'get': [], 'set': [], 'dbset': [], 'save': [], 'crit': [], 'exempt': [], 'mark': [], 'errors': []}
+    out = {'get': [], 'set': [], 'dbset': [], 'save': [], 'crit': [], 'exempt': [], 'mark': [], 'sess': [], 'errors': []}
 
     def bit(a): return P._bits_[a]
 
@@ -133,6 +135,26 @@ def introspect():
                 if not sql.lstrip().upper().startswith('UPDATE'): out['errors'].append('exempt probe: last statement is not the UPDATE: %r' % sql[:60])
                 out['exempt'].append([[so, fu], '"p"' in sql.split('WHERE', 1)[-1]])
                 rollback()
+    # session-level flags: [SessionCache.__init__] / [prepare_connection_for_query_execution] / [flush] / [commit]
+    from pony.orm import commit, select
+    for so in B:
+        for fu in B:
+            for wrote in B:
+                with db_session(optimistic=so):
+                    obj = P.get_for_update(id=1) if fu else P.get(id=1)
+                    select(x for x in P if x.z == 1)[:]
+                    if wrote:
+                        obj.z = 9
+                        flush()
+                    cache = db._get_cache()
+                    before = [bool(cache.immediate), bool(cache.in_transaction), obj in cache.for_update, len(cache.query_results)]
+                    commit()
+                    cache = db._get_cache()
+                    after = [bool(cache.immediate), bool(cache.in_transaction), obj in cache.for_update, len(cache.query_results)]
+                    out['sess'].append([[so, fu, wrote], before + after])
+                    rollback()
+        with db_session(optimistic=so):
+            db.execute("update P set z = 1 where id = 1")
     return out
 
 
@@ -158,6 +180,8 @@ def render(f):
     L.append('def exemptRows : List ((Bool × Bool) × Bool) := [' + ', '.join('((%s, %s), %s)' % (lb(k[0]), lb(k[1]), lb(v)) for k, v in f['exempt']) + ']')
     L.append('/-- (wbit, volatile, read bit of another attribute) ↦ (read bit, read bit of the other attribute) after `_set_rbits((obj,), {a})` -/')
     L.append('def markRowsT : List ((Bool × Bool × Bool) × (Bool × Bool)) := [' + ', '.join('((%s, %s, %s), (%s, %s))' % (lb(k[0]), lb(k[1]), lb(k[2]), lb(v[0]), lb(v[1])) for k, v in f['mark']) + ']')
+    L.append('/-- (db_session optimistic, get_for_update, assign + flush) ↦ (immediate, in_transaction, object in for_update, len(query_results)) before and after commit() -/')
+    L.append('def sessRows : List ((Bool × Bool × Bool) × (Bool × Bool × Bool × Nat) × (Bool × Bool × Bool × Nat)) := [' + ', '.join('((%s, %s, %s), (%s, %s, %s, %d), (%s, %s, %s, %d))' % (lb(k[0]), lb(k[1]), lb(k[2]), lb(v[0]), lb(v[1]), lb(v[2]), v[3], lb(v[4]), lb(v[5]), lb(v[6]), v[7]) for k, v in f['sess']) + ']')
     L += ['', 'end PonyVerif.Gen.OccTable', '']
     return '\n'.join(L)
 
